@@ -18,7 +18,7 @@ class C30(Prop):
     rule = (
         "cases = 2-3 workflow instances of one two-step workflow class with num_concurrent_runs in {1..4, None}, and 2-10 runs started "
         "at generated virtual instants on generated instances, each with generated step durations, optionally failing in its first or "
-        "second step, optionally cancelled at a generated instant (before it got a slot, while running, after it ended), gracefully (cancel_run) or hard (handler.cancel(): the run's task is cancelled). Oracle over the "
+        "second step (optionally the same instances were already used, with queueing, in an earlier event loop), optionally cancelled at a generated instant (before it got a slot, while running, after it ended), gracefully (cancel_run) or hard (handler.cancel(): the run's task is cancelled). Oracle over the "
         "recorded run intervals [first step entered, result available], evaluated strictly between event instants: (a) the number of "
         "runs of one instance that are executing never exceeds its limit; (b) work conservation: while a started, uncancelled run of an "
         "instance is still waiting to execute, that instance is at its limit (so a run never waits because of ANOTHER instance, and no "
@@ -55,7 +55,9 @@ class C30(Prop):
                         "hard": draw(st.sampled_from([False, False, True])),
                     }
                 )
-            return {"limits": limits, "runs": runs, "ties": draw(st.lists(st.integers(0, 7), max_size=8))}
+            # the same workflow instances were used before, in an EARLIER event loop (an earlier asyncio.run()), with more runs than
+            # slots (so that runs had to queue there); the case proper then runs in a fresh loop
+            return {"limits": limits, "runs": runs, "ties": draw(st.lists(st.integers(0, 7), max_size=8)), "earlier_loop": draw(st.sampled_from([False, False, True]))}
 
         return case()
 
@@ -98,11 +100,36 @@ class C30(Prop):
         rec = genwf.Rec({"ties": case["ties"], "ext": []})
         horizon = 50.0 + 4 * sum(x["d1"] + x["d2"] + x["at"] for x in runs)
 
+        # instances and runtime are created outside any event loop, as module-level workflow objects are
+        genwf.CUR = rec
+        runtime = genwf.make_runtime()
+        warm_log: list = []
+        log_all = log  # the step bodies index this list by run number; warm-up runs get numbers after the case's own runs
+        if case.get("earlier_loop"):
+            for lim in case["limits"]:
+                for _ in range((lim or 1) + 1):
+                    warm_log.append({"enter": None, "done": None, "started": None, "outcome": None, "cancelled_at": None})
+            log_all = log + warm_log
+        cls = self._cls(rec, log_all)
+        insts = [cls(timeout=None, runtime=runtime, num_concurrent_runs=lim) for lim in case["limits"]]
+
+        async def warm():
+            hs = []
+            k = len(runs)
+            for inst, lim in zip(insts, case["limits"]):
+                for _ in range((lim or 1) + 1):
+                    hs.append(inst.run(start_event=ge.GStart(k=k, d1=1, d2=0, fail=None), run_id=f"warm-{k}"))
+                    k += 1
+            await asyncio.gather(*[h._result_task for h in hs], return_exceptions=True)
+
+        if case.get("earlier_loop"):
+            try:
+                boot.run_virtual(warm)
+            except Runaway as e:
+                raise RuntimeError(f"inconclusive warm-up: {e}") from None
+
         async def main():
             genwf.CUR = rec
-            runtime = genwf.make_runtime()
-            cls = self._cls(rec, log)
-            insts = [cls(timeout=None, runtime=runtime, num_concurrent_runs=lim) for lim in case["limits"]]
             handlers: list = [None] * len(runs)
 
             async def one(k, spec):
@@ -222,6 +249,8 @@ class C30(Prop):
             r.classes.append("failed_run")
         if len({s["inst"] for s in runs}) > 1:
             r.classes.append("multi_instance")
+        if case.get("earlier_loop"):
+            r.classes.append("instances_used_in_an_earlier_event_loop")
         r.nontrivial = waited
         r.sample = {"case": case, "log": [{k: v for k, v in lg.items()} for lg in log]}
         return r
